@@ -265,6 +265,12 @@ func runC07(c *Ctx) {
 	rfKey := int64Const(p, "rt/middleware", "ctxResponseFormat")
 	for _, r := range returnsOf(crf) {
 		ok, bad := allOrigins(r.Results[0], oCall(-1, "rt/middleware.NegotiateContentType"), func(o Origin) bool { return vCtxValue(ctxKeyT, rfKey)(o.V) })
+		if !ok {
+			// `return "", r` on the branch where the negotiated value was just found to be ""
+			if k, isK := constString(r.Results[0]); isK && k == "" && guardedBy(r, nil, factEqString(vOrigins(oCall(-1, "rt/middleware.NegotiateContentType")), "", true)) {
+				ok = true
+			}
+		}
 		c.obI("R07.1", r, "context-returns-negotiated-value", ok, "Context.ResponseFormat returns exactly the negotiated (or cached) value", "origin "+describeOrigin(bad))
 	}
 	for _, n := range callsIn(crf, "rt/middleware.NegotiateContentType") {
